@@ -108,15 +108,16 @@ FaultBase1 == SmallAst
 FaultBase2 == SplitFile(SplitRoot(SmallAst, 2, Len(SmallAst.srv.es)), 1, 2, 3)
 FaultBase3 == Ast(FullRoot(3), <<>>, BlFor(AllScal))
 FamFaults(a) == Faults(a)
+BraceFaults(a) == { x \in Faults(a) : x.fault.cls \in {"MissingOpenBrace", "MissingCloseBrace"} }
 
 Cases ==
   CASE Tier = "dev" ->
          FamPresence(0, 14) \cup FamDefault(Shapes4, 1) \cup FamTwoHosts({<<2, 1>>, <<7, 2>>}, {3})
-         \cup { Plain(FaultBase2) } \cup FamFaults(FaultBase2)
+         \cup { Plain(FaultBase2) } \cup FamFaults(FaultBase2) \cup BraceFaults(FaultBase1)
     [] Tier = "quick" ->
          FamPresence(1, 13) \cup FamValues \cup FamDefault(Shapes13, 1) \cup FamDefault(Shapes4, 2)
          \cup FamOneHost(Shapes13, 1, Shapes4) \cup FamTwoHosts(Shapes4, {3}) \cup FamFull
-         \cup FamIncludes(SmallAst) \cup FamFaults(FaultBase2)
+         \cup FamIncludes(SmallAst) \cup FamFaults(FaultBase2) \cup BraceFaults(FaultBase1)
     [] Tier = "thorough" ->
          FamPresence(2, 12) \cup FamValues \cup FamDefault(Shapes13, 2) \cup FamDefault3(Shapes4 \cup {<<5, 3>>, <<9, 1>>})
          \cup FamOneHost(Shapes13, 2, Shapes4) \cup FamTwoHosts(Shapes4 \cup {<<8, 1>>}, {1, 2, 3}) \cup FamFull
